@@ -1480,6 +1480,12 @@ func (d *drv) stepLSM() {
 		d.fmu.Unlock()
 		if inj > 0 {
 			d.afterFault++
+			if d.afterFault <= 2 {
+				// calls that take a version and may fail while the storage fails must give it back (a version that stays
+				// referenced blocks the reference loop: later obsolete tables are never removed)
+				_, err := d.db.SizeOf([]util.Range{d.rangeOf(0, d.u.N()), d.rangeOf(d.rng.Intn(d.u.N()), d.u.N())})
+				d.emit(vt.Ev{"ev": "misc", "api": "SizeOf", "err": d.ename(err)})
+			}
 			if d.afterFault > 3+d.rng.Intn(5) {
 				d.postHeal = true
 				d.heal("healed")
